@@ -19,7 +19,9 @@ SCOPE = {
              'all sequences of <=3 operations over f(0) f(1) f(2.4) dump() archived(False); 7 continuations of <=3 operations (calls incl. new '
              'and float arguments, clear, load, dump, archived(True))',
     'thorough': 'as quick with prefixes of <=4 operations',
+    'both tiers': 'plus: file (pickle/json) and dir (pickle/json) archives as shared storage across the round trip; a cached METHOD (ignore self) whose function dill copies by value, 3 keymaps x 3 ignore specifications, lock-step over 8 calls with explicit instances',
 }
+SCOPE = {t: SCOPE[t] + '; ' + SCOPE['both tiers'] for t in ('quick', 'thorough')}
 ASSUMPTIONS = ['bounded scope, not a proof', 'dill copies closures by value and preserves sharing between closure cells (assumed contract of dill: '
                'it is most of the property)', 'rr_cache: the global random generator is re-seeded identically before each lock-step operation']
 
@@ -43,6 +45,12 @@ def build(modname, clsname, purge, arch, kmkind, tol):
         cache = A.dict_archive('c20', cached=True)
     elif arch.startswith('filejson:'):
         cache = A.file_archive(arch.split(':', 1)[1], cached=True, protocol='json')
+    elif arch.startswith('filepickle:'):
+        cache = A.file_archive(arch.split(':', 1)[1], cached=True)
+    elif arch.startswith('dirjson:'):
+        cache = A.dir_archive(arch.split(':', 1)[1], cached=True, protocol='json')
+    elif arch.startswith('dirpickle:'):
+        cache = A.dir_archive(arch.split(':', 1)[1], cached=True)
     else:
         cache = A.null_archive(cached=True)
     kw = {'cache': cache, 'keymap': KM.keymap() if kmkind == 'raw' else KM.stringmap(), 'tol': tol}
@@ -88,14 +96,20 @@ def units(tier, seed):
                     for (kmkind, tol) in (('raw', None), ('string', 1)):
                         us.append((modname, cls, purge, arch, kmkind, tol, 4 if tier == 'thorough' else 3))
             us.append((modname, cls, False, 'filejson', 'string', None, 0))
+            us.append((modname, cls, False, 'method', 'string', None, 0))
+            if modname == 'klepto._cache' or cls in ('lru_cache', 'no_cache'):
+                for kind in ('filepickle', 'dirjson', 'dirpickle'):
+                    us.append((modname, cls, False, kind, 'string', None, 0))
     return us
 
 
 def run_unit(unit):
     import dill
     modname, cls, purge, arch, kmkind, tol, plen = unit
-    if arch == 'filejson':
+    if arch in ('filejson', 'filepickle', 'dirjson', 'dirpickle'):
         return run_persistent(unit)
+    if arch == 'method':
+        return run_method(unit)
     out = {'evaluations': 0, 'distinct': 0, 'violations': [], 'samples': [], 'counters': {'roundtrips': 0}}
     seen = set()
 
@@ -158,6 +172,76 @@ def run_unit(unit):
     return out
 
 
+METHOD_SRC = '''
+class Model(object):
+    def __init__(self, scale):
+        self.scale = scale
+
+    @DEC
+    def response(self, x, y=2):
+        return ('val', x, y)
+'''
+
+
+def run_method(unit):
+    """a cached METHOD (ignore='self') defined in a __main__-like namespace, so that dill copies the function by value: the clone of
+    Model.response continues in lock-step with the original when both are called with explicit instances"""
+    import dill
+    import importlib
+    import klepto.keymaps as KM
+    modname, cls, purge, arch, kmkind, tol, plen = unit
+    out = {'evaluations': 0, 'distinct': 0, 'violations': [], 'samples': [], 'counters': {'roundtrips': 0}}
+    try:
+        for kmname, mk in (('stringmap', KM.stringmap), ('keymap', KM.keymap), ('hashmap', lambda: KM.hashmap(algorithm='md5'))):
+            for ign in ('self', ('self',), ('self', 'y')):
+                kw = {'keymap': mk(), 'ignore': ign}
+                if cls not in ('no_cache', 'inf_cache'):
+                    kw['maxsize'] = 3
+                dec = getattr(importlib.import_module(modname), cls)(**kw)
+                ns = {'__name__': '__main__', 'DEC': dec}
+                exec(METHOD_SRC, ns)
+                Model = ns['Model']
+                a, b = Model(1), Model(5)
+                orig = Model.response
+                for (o, args, kwds) in ((a, (1,), {}), (a, (2,), {'y': 3}), (b, (1,), {}), (a, (3,), {})):
+                    random.seed(4242)
+                    getattr(o, 'response')(*args, **kwds)
+                wit = {'unit': list(unit), 'method': [kmname, list(ign) if isinstance(ign, tuple) else ign]}
+                klass = '%s: cached method (ignore=%r)' % (cls, ign)
+                try:
+                    copy = dill.loads(dill.dumps(orig))
+                except Exception as e:      # noqa
+                    out['violations'].append({'clause': 'roundtrip_succeeds', 'klass': klass, 'message': '%s.%s %s: dill round trip of a cached method fails: %r' % (modname, cls, kmname, e), 'witness': wit})
+                    continue
+                out['counters']['roundtrips'] += 1
+                out['distinct'] += 1
+                bad = None
+                if tuple(copy.info()) != tuple(orig.info()) or dict(copy.__cache__()) != dict(orig.__cache__()):
+                    bad = 'right after the round trip: copy %r %r, original %r %r' % (tuple(copy.info()), dict(copy.__cache__()), tuple(orig.info()), dict(orig.__cache__()))
+                for (o, args, kwds) in (() if bad else ((a, (1,), {}), (b, (2,), {'y': 3}), (a, (7,), {}), (b, (3,), {}), (a, (8,), {}), (b, (1,), {}), (a, (2, 3), {}), (a, (9,), {'y': 0}))):
+                    out['evaluations'] += 1
+                    res = []
+                    for fn in (orig, copy):
+                        random.seed(4242)
+                        try:
+                            res.append(('ret', fn(o, *args, **kwds)))
+                        except Exception as e:      # noqa
+                            res.append(('raise', e.__class__.__name__))
+                    try:
+                        keys = (orig.key(o, *args, **kwds), copy.key(o, *args, **kwds))
+                    except Exception as e:      # noqa
+                        keys = ('key', 'raises %r' % (e,))
+                    if res[0] != res[1] or tuple(copy.info()) != tuple(orig.info()) or dict(copy.__cache__()) != dict(orig.__cache__()) or keys[0] != keys[1]:
+                        bad = 'call %r %r: original %r info %r, copy %r info %r; keys %r' % (args, kwds, res[0], tuple(orig.info()), res[1], tuple(copy.info()), keys)
+                        break
+                if bad:
+                    out['violations'].append({'clause': 'lockstep_equal', 'klass': klass, 'message': '%s.%s keymap %s ignore=%r: %s' % (modname, cls, kmname, ign, bad), 'witness': wit})
+        out['samples'].append({'configuration': '%s.%s cached method, ignore self' % (modname, cls)})
+    except Exception:
+        out['violations'].append({'clause': 'harness', 'klass': 'harness crashed on %s method' % cls, 'message': traceback.format_exc()[-700:], 'witness': {'unit': list(unit)}})
+    return out
+
+
 def run_persistent(unit):
     """a persistent archive remains shared storage: the round trip must not change it, and the clone is served from it"""
     import dill
@@ -169,8 +253,8 @@ def run_persistent(unit):
     d = tempfile.mkdtemp(prefix='c20_', dir=os.environ.get('VERIF_SCRATCH', '/tmp'))
     try:
         for hi, hist in enumerate([[('call', 0), ('call', 1), ('dump',)], [('call', 0), ('call', 1), ('call', 3), ('call', 4)], [('call', 1), ('dump',), ('clear',)]]):
-            loc = os.path.join(d, 'h%d.json' % hi)
-            f = build(modname, cls, purge, 'filejson:' + loc, 'string', None)
+            loc = os.path.join(d, 'h%d.%s' % (hi, 'json' if arch == 'filejson' else 'store'))
+            f = build(modname, cls, purge, arch + ':' + loc, 'string', None)
             for op in hist:
                 apply(f, op)
             before = state(f)
@@ -178,14 +262,45 @@ def run_persistent(unit):
             out['counters']['roundtrips'] += 1
             out['distinct'] += 1
             out['evaluations'] += 2
-            after_f, after_g = state(f), state(g)
+            try:
+                after_f, after_g = state(f), state(g)
+            except Exception as e:      # noqa
+                after_f, after_g = state(f), 'unreadable: %r' % (e,)
             if after_f['archive'] != before['archive'] or after_g != before:
-                out['violations'].append({'clause': 'persistent_archive_survives_round_trip', 'klass': '%s on a JSON file archive' % cls,
-                                          'message': '%s.%s with file_archive(protocol=json) after %r: before the round trip %r; afterwards the original sees archive %r and the clone is %r'
-                                                     % (modname, cls, hist, before, after_f['archive'], after_g),
+                out['violations'].append({'clause': 'persistent_archive_survives_round_trip', 'klass': '%s on a persistent archive (%s)' % (cls, arch),
+                                          'message': '%s.%s on %s after %r: before the round trip %r; afterwards the original sees archive %r and the clone is %r'
+                                                     % (modname, cls, arch, hist, before, after_f['archive'], after_g),
                                           'witness': {'unit': list(unit), 'persistent': hi}})
                 break
-        out['samples'].append({'configuration': '%s.%s on file_archive(protocol=json)' % (modname, cls)})
+            # the archive is shared storage: an entry that is archived but not resident is LOADED by original and clone alike, and
+            # what the clone dumps the original can load
+            ok = True
+            for step, op in enumerate([('clear',), ('call', 0), ('call', 1), ('call', 9), ('dump',), ('call', 9)]):
+                target = g if step < 5 else f
+                if step == 5:
+                    apply(f, ('clear',))
+                r = apply(target, op)
+                out['evaluations'] += 1
+                if step in (1, 2, 5) and op[0] == 'call':
+                    i = target.info()
+                    want_archived = ('call', op[1]) in hist or op[1] == 9
+                    dumped = ('dump',) in hist or cls == 'no_cache' or step == 5
+                    if r[0] != 'ret' or (want_archived and dumped and i.load == 0 and cls != 'no_cache' and i.miss > 0 and step == 5):
+                        ok = False
+                        out['violations'].append({'clause': 'persistent_archive_is_shared_storage', 'klass': '%s on a persistent archive (%s)' % (cls, arch),
+                                                  'message': '%s.%s on %s after %r + round trip: step %d %r on the %s gives %r with info %r'
+                                                             % (modname, cls, arch, hist, step, op, 'clone' if target is g else 'original', r, tuple(i)),
+                                                  'witness': {'unit': list(unit), 'persistent': hi}})
+                        break
+                if r[0] == 'raise' and op[0] in ('dump', 'call'):
+                    ok = False
+                    out['violations'].append({'clause': 'persistent_archive_is_shared_storage', 'klass': '%s on a persistent archive (%s)' % (cls, arch),
+                                              'message': '%s.%s on %s after %r + round trip: %r on the %s raises %r' % (modname, cls, arch, hist, op, 'clone' if target is g else 'original', r),
+                                              'witness': {'unit': list(unit), 'persistent': hi}})
+                    break
+            if not ok:
+                break
+        out['samples'].append({'configuration': '%s.%s on %s' % (modname, cls, arch)})
     except Exception:
         out['violations'].append({'clause': 'harness', 'klass': 'harness crashed on %s filejson' % cls, 'message': traceback.format_exc()[-700:],
                                   'witness': {'unit': list(unit)}})
@@ -247,6 +362,10 @@ def level_a_search(name):
 
 
 def replay(w):
+    if 'method' in w:
+        r = run_method(tuple(w['unit']))
+        vs = [v for v in r['violations'] if v['witness'].get('method') == w['method']] or r['violations']
+        return bool(vs), (vs[0]['message'][:600] if vs else 'the clone of the cached method continues in lock-step')
     if 'reduce' in w:
         modname, clsname, label = w['reduce']
         for lab, kw in _reduce_configs(clsname):
